@@ -16,45 +16,31 @@ import (
 // (tag whitebox:unavailable).
 const whiteboxAvailable = false
 
-func composeCopy(sr SR, n int) []SR { return sr.Copy(n) } // (n >= 1 on this path)
-func composeMerge(srs []SR) SR      { return schema.MergeStreamReaders(srs) }
+func composeCopy[T any](sr *schema.StreamReader[T], n int) []*schema.StreamReader[T] {
+	return sr.Copy(n) // (n >= 1 on this path)
+}
+func composeMerge[T any](srs []*schema.StreamReader[T]) *schema.StreamReader[T] {
+	return schema.MergeStreamReaders(srs)
+}
 
-func composeViaAny(sr SR) SR {
-	asr := schema.StreamReaderWithConvert(sr, func(v uint64) (any, error) { return v, nil })
-	return schema.StreamReaderWithConvert(asr, func(a any) (uint64, error) {
-		v, ok := a.(uint64)
+func composeViaAny[T any](sr *schema.StreamReader[T]) *schema.StreamReader[T] {
+	asr := schema.StreamReaderWithConvert(sr, func(v T) (any, error) { return v, nil })
+	return schema.StreamReaderWithConvert(asr, func(a any) (T, error) {
+		v, ok := assertChunk[T](a)
 		if !ok {
-			return 0, fmt.Errorf("verif c08: chunk of type %T came back from the any path", a)
+			return v, fmt.Errorf("verif c08: chunk of type %T came back from the any path", a)
 		}
 		return v, nil
 	})
 }
 
-func composeViaKey(sr SR) SR {
-	m := schema.StreamReaderWithConvert(sr, func(v uint64) (map[string]any, error) { return map[string]any{"k": v}, nil })
-	return schema.StreamReaderWithConvert(m, func(kv map[string]any) (uint64, error) {
-		v, ok := kv["k"].(uint64)
-		if !ok || len(kv) != 1 {
-			return 0, fmt.Errorf("verif c08: keyed chunk %v", kv)
-		}
-		return v, nil
-	})
-}
-
-func composeViaNilAny(sr SR) SR {
-	asr := schema.StreamReaderWithConvert(sr, func(v uint64) (any, error) {
-		if v == 0 {
-			return nil, nil
-		}
-		return v, nil
-	})
-	return schema.StreamReaderWithConvert(asr, func(a any) (uint64, error) {
-		if a == nil {
-			return 0, nil
-		}
-		v, ok := a.(uint64)
-		if !ok {
-			return 0, fmt.Errorf("verif c08: chunk of type %T in the stream of any", a)
+func composeViaKey[T any](sr *schema.StreamReader[T]) *schema.StreamReader[T] {
+	m := schema.StreamReaderWithConvert(sr, func(v T) (map[string]any, error) { return map[string]any{"k": v}, nil })
+	return schema.StreamReaderWithConvert(m, func(kv map[string]any) (T, error) {
+		c, has := kv["k"]
+		v, ok := assertChunk[T](c)
+		if !has || !ok || len(kv) != 1 {
+			return v, fmt.Errorf("verif c08: keyed chunk %v", kv)
 		}
 		return v, nil
 	})
